@@ -89,6 +89,10 @@ def run(ck):
     # executed units) - the buffer discipline of process, as decided for C07
     import c07
     c07.rule_K(ck, lib, "C04-K")
+    # "undefined headers produce no output": a header that no declaration spells selects no handler - the emitted trie
+    # accepts exactly the declared spellings (rules C01-T/D on the witness interfaces)
+    import c01
+    c01.rule_T(ck, T="C04-T", D="C04-D")
     # a response is written only for a query bound to a query handler: execute picks the slot by the query flag and refuses
     # an empty slot (the rule of C01, necessary here as well)
     import c01
